@@ -8,3 +8,5 @@ import Dtr.Props.C20
 #print axioms Dtr.C20_parse_factors
 #print axioms Dtr.C20_bind_ignores_spans
 #print axioms Dtr.C20_blank_line_insert
+#print axioms Dtr.C20_bind_up_to_lines
+#print axioms Dtr.C20_run_ignores_lines
